@@ -125,6 +125,29 @@ Theorem C19_fs_key_map_empty : FS_KEY_MAP = [].
 Proof. vm_compute. reflexivity. Qed.
 Print Assumptions C19_fs_key_map_empty.
 
+(* ---- generated facts (harness/gen_facts.py, ast walk of nutree/fs.py): the keys the two
+   mappers write and read and the sort keys of load_tree_from_fs are the ones of the model;
+   a change of the source text breaks these obligations ---- *)
+Definition t_name : text := [110; 97; 109; 101].          (* "name" *)
+Definition t_size : text := [115; 105; 122; 101].         (* "size" *)
+Definition t_mdate : text := [109; 100; 97; 116; 101].    (* "mdate" *)
+Definition t_True : text := [84; 114; 117; 101].          (* "True" *)
+Definition t_data (k : text) : text := [100; 97; 116; 97; 58] ++ k.   (* data["k"] *)
+
+Theorem C19_source_keys_are_model_keys :
+  FS_SER_DIR = [(k_n, t_name); (k_d, t_True)] /\
+  FS_SER_FILE = [(k_n, t_name); (k_s, t_size); (k_m, t_mdate)] /\
+  map fst FS_SER_DIR = map fst (ser (E [] true 0 None) []) /\
+  map fst FS_SER_FILE = map fst (ser (E [] false 0 None) []) /\
+  FS_DESER_TEST = k_d /\
+  FS_DESER_DIR = [([], t_data k_n); ([105; 115; 95; 100; 105; 114], t_True)] /\
+  FS_DESER_FILE = [([], t_data k_n); (t_size, t_data k_s); (t_mdate, t_data k_m)] /\
+  FS_SORT_CALLS = [([102; 105; 108; 101; 115], [97; 116; 116; 114; 103; 101; 116; 116; 101; 114; 58] ++ t_name);
+                   ([100; 105; 114; 115], [105; 116; 101; 109; 103; 101; 116; 116; 101; 114; 58; 48])] /\
+  FS_DIRS_TUPLE = [[99]; [111]].
+Proof. vm_compute. repeat split; reflexivity. Qed.
+Print Assumptions C19_source_keys_are_model_keys.
+
 (* ---- non-vacuity: a directory with nesting, an empty folder, a special file,
    sort-sensitive names; two different listing orders ---- *)
 Definition ex_dir : list fsn :=
